@@ -64,11 +64,15 @@ Section WrapProofs.
   Hypothesis Hcin : 1 <= p_cin pr.
   Hypothesis Hcout : 1 <= p_cout pr.
   Hypothesis Hord : p_order pr = true.
+  (* the in-loop peek (foldfilter) relies on the poison being enqueued before the child's stdin is closed,
+     and - since the fix - tolerates the child's end-of-file when the queue is no longer empty *)
+  Hypothesis Hmidpf : p_mid_peek pr = true -> p_poison_first pr = true.
+  Hypothesis Hmidok : p_mid_peek pr = true -> p_peek_eof_ok pr = true.
 
   Notation I := (I ilen).
   Notation A := (A alen).
   Notation wstep := (wstep pr ilen alen).
-  Notation produced := (produced pr alen).
+  Notation produced := (produced pr ilen alen).
 
   Definition poisoned (s : wst) : bool :=
     match w_fpc s with
@@ -78,7 +82,7 @@ Section WrapProofs.
     end.
 
   Definition kactive (s : wst) : bool :=
-    match w_kpc s with KDeq | KLines => true | _ => false end.
+    match w_kpc s with KDeq | KLines | KMid | KMidW | KMid2 => true | _ => false end.
 
   Definition fclosedpc (s : wst) : bool :=
     match w_fpc s with FDone | FEofPoison => true | _ => false end.
@@ -103,6 +107,9 @@ Section WrapProofs.
     i_q : exists ns, w_queue s = map Some ns ++ (if poisoned s && kactive s then [None] else []);
     i_kdone : kactive s = false -> poisoned s = true /\ w_queue s = [];
     i_err : w_kpc s <> KErr;
+    i_mid2 : w_kpc s = KMid2 -> A (w_klines s) < w_cwritten s \/ w_cexit s = true;
+    i_midp : (w_kpc s = KMid \/ w_kpc s = KMidW \/ w_kpc s = KMid2) -> p_mid_peek pr = true;
+    i_eofp : w_fpc s = FEofPoison -> p_poison_first pr = false;
     i_eofclose : w_fpc s = FEofClose -> w_flushing s = true;
   }.
 
@@ -117,7 +124,13 @@ Section WrapProofs.
     { apply (cum_le_inv ilen Hil). unfold WrapDefs.I in *. lia. }
     split; [|exact Hc]. unfold WrapDefs.produced. destruct (p_echo pr) eqn:E.
     - rewrite (HAI eq_refl). lia.
-    - apply (cum_mono alen). exact Hc.
+    - apply (cum_mono alen).
+      destruct (p_early pr && (I (w_clines s) <? w_cread s)) eqn:Ee; [|lia].
+      apply andb_true_iff in Ee. destruct Ee as [_ Ee]. apply Nat.ltb_lt in Ee.
+      (* a line has been started: it is one of the lines sent *)
+      assert (Hlt : w_clines s < w_sentl s).
+      { apply (cum_lt_inv ilen). unfold WrapDefs.I in *. lia. }
+      lia.
   Qed.
 
   Lemma winv_init recs : WInv (w_init recs).
@@ -125,6 +138,7 @@ Section WrapProofs.
     constructor; simpl; unfold WrapDefs.produced, WrapDefs.I, WrapDefs.A; simpl; try lia; try discriminate; auto.
     - split; discriminate.
     - exists []. reflexivity.
+    - intros [H|[H|H]]; discriminate.
   Qed.
 
   Ltac inv_some H := inversion H; subst; clear H.
@@ -233,16 +247,40 @@ Section WrapProofs.
     - (* a line was completed *)
       destruct (p_echo pr) eqn:Eecho.
       + inv_some H. constructor; wsimp; unfold WrapDefs.produced in *; rewrite ?Eecho in *; try wauto.
-      + rewrite Nat.eqb_sym in H. rewrite (proj2 (Nat.eqb_neq _ _) (Nat.neq_succ_diag_r (w_clines s))) in H. simpl in H.
-        destruct (release_now pr (S (w_clines s)) (w_crell s)) eqn:Erel; inv_some H;
-          constructor; wsimp; unfold WrapDefs.produced in *; rewrite ?Eecho in *; try wauto.
+      + destruct (p_early pr) eqn:Eearly; cbn [andb] in *.
+        * (* early child: the completed line had been answered when it started *)
+          assert (Hn : (I (S (w_clines s)) <? w_cread s + m) = false) by (apply Nat.ltb_ge; lia).
+          unfold WrapDefs.produced in H. rewrite ?Eecho, ?Eearly, ?Hn in H. cbn [andb] in H. rewrite Nat.add_0_r in H.
+          inv_some H.
+          destruct (I (w_clines s) <? w_cread s) eqn:Eold; bprop;
+            constructor; wsimp; unfold WrapDefs.produced in *; rewrite ?Eecho, ?Eearly, ?Hn, ?Eold in *; cbn [andb] in *;
+            rewrite ?Nat.add_0_r, ?Nat.add_1_r in *; try wauto.
+          all: assert (Hn' : (I (S (w_clines s)) <? w_cread s + m) = false) by (apply Nat.ltb_ge; unfold WrapDefs.I in *; simpl in *; lia);
+            rewrite Hn', Nat.add_0_r;
+            pose proof (eq_refl : A (S (w_clines s)) = A (w_clines s) + alen (w_clines s)) as HA1';
+            destruct i_rel0 as (Hr1 & Hr2 & Hr3); rewrite ?Nat.add_0_r, ?Nat.add_1_r in Hr2; lia.
+        * rewrite ?Nat.add_0_r in *.
+          rewrite Nat.eqb_sym in H. rewrite (proj2 (Nat.eqb_neq _ _) (Nat.neq_succ_diag_r (w_clines s))) in H. simpl in H.
+          destruct (release_now pr (S (w_clines s)) (w_crell s)) eqn:Erel; inv_some H;
+            constructor; wsimp; unfold WrapDefs.produced in *; rewrite ?Eecho, ?Eearly in *; cbn [andb] in *; rewrite ?Nat.add_0_r in *; try wauto.
     - destruct (p_echo pr) eqn:Eecho.
       + inv_some H. constructor; wsimp; unfold WrapDefs.produced in *; rewrite ?Eecho in *; try wauto.
-      + rewrite Nat.eqb_refl in H. simpl in H. inv_some H.
-        constructor; wsimp; unfold WrapDefs.produced in *; rewrite ?Eecho in *; try wauto.
+      + destruct (p_early pr) eqn:Eearly; cbn [andb] in *.
+        * assert (Hn : (I (w_clines s) <? w_cread s + m) = true) by (apply Nat.ltb_lt; lia).
+          unfold WrapDefs.produced in H. rewrite ?Eecho, ?Eearly, ?Hn in H. cbn [andb] in H. rewrite Nat.add_1_r in H.
+          inv_some H.
+          destruct (I (w_clines s) <? w_cread s) eqn:Eold; bprop;
+            constructor; wsimp; unfold WrapDefs.produced in *; rewrite ?Eecho, ?Eearly, ?Hn, ?Eold in *; cbn [andb] in *;
+            rewrite ?Nat.add_0_r, ?Nat.add_1_r in *; try wauto.
+          all: assert (Hn' : (I (w_clines s) <? w_cread s + m) = true) by (apply Nat.ltb_lt; lia);
+            rewrite Hn', Nat.add_1_r;
+            pose proof (eq_refl : A (S (w_clines s)) = A (w_clines s) + alen (w_clines s)) as HA1';
+            destruct i_rel0 as (Hr1 & Hr2 & Hr3); rewrite ?Nat.add_0_r, ?Nat.add_1_r in Hr2; lia.
+        * rewrite ?Nat.add_0_r in *. rewrite Nat.eqb_refl in H. simpl in H. inv_some H.
+          constructor; wsimp; unfold WrapDefs.produced in *; rewrite ?Eecho, ?Eearly in *; cbn [andb] in *; rewrite ?Nat.add_0_r in *; try wauto.
   Qed.
 
-  Lemma winv_child_eof s s' : WInv s -> step_child_eof pr alen s = Some s' -> WInv s'.
+  Lemma winv_child_eof s s' : WInv s -> step_child_eof pr ilen alen s = Some s' -> WInv s'.
   Proof.
     intros J H. unfold step_child_eof in H.
     destruct (negb (w_cexit s) && w_inclosed s && Nat.eqb (w_cread s) (w_pushed s) && Nat.eqb (w_crel s) (w_cwritten s)) eqn:G; [|discriminate].
@@ -279,7 +317,7 @@ Section WrapProofs.
           try (exists []; reflexivity).
     - (* KLines *)
       destruct (w_kneed s) as [|need] eqn:En.
-      + inv_some H. constructor; wsimp; rewrite ?Ek in *; try wauto.
+      + destruct (p_mid_peek pr) eqn:Emp; inv_some H; constructor; wsimp; rewrite ?Ek in *; try wauto.
       + destruct (A (S (w_klines s)) <=? w_kread s) eqn:Eline; bprop.
         * inv_some H. constructor; wsimp; rewrite ?Ek in *; try wauto.
         * destruct ((1 <=? m) && (w_kread s + m <=? w_cwritten s)) eqn:Erd; bprop.
@@ -298,9 +336,34 @@ Section WrapProofs.
              assert (Hprod : produced (w_cread s) (w_clines s) = A (w_sentl s)).
              { unfold WrapDefs.produced. destruct (p_echo pr) eqn:Ee.
                - rewrite (HAI eq_refl). lia.
-               - rewrite Hall. reflexivity. }
+               - rewrite Hall. replace (I (w_sentl s) <? w_cread s) with false by (symmetry; apply Nat.ltb_ge; lia).
+                 rewrite andb_false_r, Nat.add_0_r. reflexivity. }
              assert (Hlt : S (w_klines s) <= w_sentl s) by lia.
              pose proof (cum_mono alen (S (w_klines s)) (w_sentl s) Hlt) as Hm. unfold WrapDefs.A in *. lia.
+    - (* KMid: queue.Empty()?  then peek *)
+      pose proof (i_nz0 ltac:(discriminate)) as Hn0.
+      pose proof (i_midp0 (or_introl eq_refl)) as Hmp.
+      destruct (w_queue s) as [|x q] eqn:Eq; inv_some H; constructor; wsimp; rewrite ?Ek in *; try wauto.
+    - (* KMidW: inside peek() *)
+      pose proof (i_nz0 ltac:(discriminate)) as Hn0.
+      pose proof (i_midp0 (or_intror (or_introl eq_refl))) as Hmp.
+      destruct (A (w_klines s) <? w_cwritten s) eqn:Eav; bprop.
+      + inv_some H. constructor; wsimp; rewrite ?Ek in *; try wauto.
+      + destruct (w_cexit s) eqn:Ex; [|discriminate]. rewrite (Hmidok Hmp) in H. inv_some H.
+        constructor; wsimp; rewrite ?Ek in *; try wauto.
+    - (* KMid2: queue.Empty() again?  then "more output than input" / "stopped early": impossible *)
+      pose proof (i_nz0 ltac:(discriminate)) as Hn0.
+      pose proof (i_midp0 (or_intror (or_intror eq_refl))) as Hmp.
+      destruct (w_queue s) as [|x q] eqn:Eq.
+      + exfalso. simpl in i_acct0.
+        destruct (i_mid3 eq_refl) as [Hav|Hex].
+        * assert (Hm : A (w_sentl s) = A (w_klines s)) by (f_equal; lia). lia.
+        * destruct (i_exit0 Hex) as (Hc & _). rewrite i_closed0 in Hc. unfold fclosedpc in Hc.
+          destruct i_q0 as [ns Hq]. unfold kactive, poisoned in Hq. rewrite Ek in Hq.
+          destruct (w_fpc s) eqn:Efp; try discriminate.
+          -- rewrite (i_eofp0 eq_refl) in Hmidpf. specialize (Hmidpf Hmp). discriminate.
+          -- simpl in Hq. destruct ns; discriminate.
+      + inv_some H. constructor; wsimp; rewrite ?Ek in *; try wauto.
     - (* KPeek *)
       destruct (i_kdone0 ltac:(unfold kactive; rewrite Ek; reflexivity)) as [Hpo Hq].
       pose proof (i_nz0 ltac:(discriminate)) as Hn0.
@@ -349,13 +412,13 @@ Section WrapProofs.
     intros Hx H1 H2 H3. unfold step_child_read.
     destruct (negb (w_cexit s) && Nat.eqb (w_crel s) (w_cwritten s) && (1 <=? 1) && (w_cread s + 1 <=? w_pushed s)
               && (w_cread s + 1 <=? I (S (w_clines s)))) eqn:G.
-    - destruct (p_echo pr); [discriminate|].
+    - destruct (p_echo pr); [discriminate|]. destruct (p_early pr); [discriminate|].
       destruct (negb _ && release_now pr _ _); discriminate.
     - exfalso. bfalse G.
   Qed.
 
   Lemma en_child_eof s : w_cexit s = false -> w_inclosed s = true -> w_cread s = w_pushed s -> w_crel s = w_cwritten s ->
-    step_child_eof pr alen s <> None.
+    step_child_eof pr ilen alen s <> None.
   Proof.
     intros Hx H1 H2 H3. unfold step_child_eof.
     destruct (negb (w_cexit s) && w_inclosed s && Nat.eqb (w_cread s) (w_pushed s) && Nat.eqb (w_crel s) (w_cwritten s)) eqn:G.
@@ -388,7 +451,7 @@ Section WrapProofs.
   (* ---- C05: no reachable stuck state ---- *)
   Lemma wstuck_no_label s : wstuck pr ilen alen s = true ->
     step_feed pr ilen s = None /\ step_send ilen s 1 = None /\ step_flush_start s = None /\ step_push pr s 1 = None /\
-    step_child_read pr ilen alen s 1 = None /\ step_child_eof pr alen s = None /\ step_child_write pr s 1 = None /\
+    step_child_read pr ilen alen s 1 = None /\ step_child_eof pr ilen alen s = None /\ step_child_write pr s 1 = None /\
     step_collect pr alen s 1 = None.
   Proof.
     unfold wstuck, wlabels. simpl. intros H.
@@ -459,6 +522,17 @@ Section WrapProofs.
       assert (Hx : w_cexit s = false) by (destruct E3 as [E3|E3]; bprop; [assumption|lia]).
       destruct (Nat.eq_dec (w_crel s) (w_cwritten s)) as [Hd|Hd]; [exact (Hdrained Hx Hd)|].
       apply Ecw; auto; lia.
+    - (* KMid *)
+      exfalso. destruct (w_queue s); discriminate.
+    - (* KMidW: blocked in the in-loop peek: no child byte, child alive *)
+      exfalso.
+      destruct (A (w_klines s) <? w_cwritten s) eqn:E1; [discriminate|].
+      destruct (w_cexit s) eqn:Ex; [destruct (p_peek_eof_ok pr); discriminate|]. bprop.
+      destruct i_out0 as [Jo1 Jo2].
+      destruct (Nat.eq_dec (w_crel s) (w_cwritten s)) as [Hd|Hd]; [exact (Hdrained eq_refl Hd)|].
+      apply Ecw; auto; lia.
+    - (* KMid2 *)
+      exfalso. destruct (w_queue s); discriminate.
     - (* KPeek *)
       exfalso.
       destruct (w_kread s <? w_cwritten s) eqn:E1; [discriminate|].
@@ -502,7 +576,7 @@ Section WrapProofs.
       exfalso. bprop.
       destruct (negb (w_cexit s) && Nat.eqb (w_crel s) (w_cwritten s) && (1 <=? 1) && (w_cread s + 1 <=? w_pushed s)
                 && (w_cread s + 1 <=? I (S (w_clines s)))) eqn:G1.
-      + destruct (p_echo pr); [discriminate|]. destruct (negb _ && release_now pr _ _); discriminate.
+      + destruct (p_echo pr); [discriminate|]. destruct (p_early pr); [discriminate|]. destruct (negb _ && release_now pr _ _); discriminate.
       + bfalse G1.
     - unfold step_child_write in *.
       destruct (negb (w_cexit s) && (1 <=? m) && (w_cwritten s + m <=? w_crel s) && (w_cwritten s + m - w_kread s <=? p_cout pr)) eqn:G; auto.
